@@ -1,5 +1,6 @@
 import Otel.C16.Lemmas5
 import Otel.C16.Lemmas6
+import Otel.C16.Props
 /-
 C16 — property theorems about forwarded callbacks (`unwrapCallback` / `unwrapObs`, internal/global/meter.go:590):
 the SDK may invoke the callback it was given for a registration from any number of collection cycles (readers) at the
@@ -67,13 +68,13 @@ delivered to the Observer of the invocation's collection -/
 theorem callback_observation_reaches_sdk {s : St} (hr : Reachable false s) {t r o w i : Nat} (v : Nat)
     (hf : s.frame t = .cbRun r o w) (hi : i < s.nI) (hm : s.iMeter i = s.rMeter r) :
     ∃ s', step false s t (.cbObserve i v) = some s' ∧
-      s'.obsLog = { r := r, coll := o, target := o, inst := i, v := v, unwrapped := true } :: s.obsLog := by
+      s'.obsLog = { r := r, coll := o, target := o, inst := i, v := v, unwrapped := true, own := true } :: s.obsLog := by
   have I := cbInv_reachable hr
   have hw := (I.own t r o w hf).1
   have hd := callback_sees_delegated_instruments hr hf hi hm
   subst hw
   simp only [step, hf, hi, if_true]
-  exact ⟨_, rfl, by simp [I.notShared, hd]⟩
+  exact ⟨_, rfl, by simp [I.notShared, hd, hm]⟩
 
 /-- a callback can be invoked as soon as, and only if, the SDK was given it -/
 theorem callback_invocable_iff_registered {old : Bool} {s : St} {t r o : Nat} (hf : s.frame t = .idle) :
@@ -114,6 +115,60 @@ example : ((runLabels false St.init
      (2, .instRegLock), (2, .instRegBody), (2, .instRegLock), (2, .instRegBody),
      (2, .instMeterDone), (2, .instProvUnlock), (2, .instOnceDone), (2, .instStore)]).map
     fun s => (s.sdkReg 0, s.sdkReg 1, s.handled, s.onceDone)) = some (0, 1, 1, true) := by decide
+
+/-- **accepted with an error** (own and foreign observables; fix c3e813c, former finding F50): the step that forwards
+such a registration registers it with the SDK, reports the error and KEEPS the SDK's Registration -/
+theorem accepted_with_error_is_registered_and_reported {s s' : St} {t m r : Nat} (hr : Reachable false s)
+    (hf : s.frame t = .iRegLocked m r) (he : s.rErr r = true) (hb : s.rBad r = false) (hu : s.rUnreg r ≠ .none)
+    (h : step false s t .instRegBody = some s') :
+    s'.sdkReg r = s.sdkReg r + 1 ∧ s'.handled = s.handled + 1 ∧ s'.rUnreg r = .sdk := by
+  have hn := (regInv_reachable hr).noDrop
+  simp only [step, hf, hu, hb, he, hn, if_false, if_true, Bool.false_eq_true, Option.some.injEq] at h
+  subst h
+  simp
+
+/-- … so Unregister is effective afterwards: once the call has been made (and returned) the SDK holds no live
+registration for it — the clause "unless it had been unregistered" for a registration accepted with an error -/
+theorem accepted_with_error_unregister_effective {s : St} (hr : Reachable false s) {r : Nat} (hlt : r < s.nR)
+    (_he : s.rErr r = true) (hu : s.unregCalled r = true) (ht : s.tok r = false) : s.sdkReg r = s.sdkUnreg r :=
+  callback_unregistered_not_live hr hlt hu ht
+
+/-- the three outcomes of forwarding a registration, after the installation and without an Unregister call:
+rejected ⇒ never registered; accepted or accepted-with-error ⇒ registered exactly once and live -/
+theorem forwarded_registration_three_outcomes {s : St} (hr : Reachable false s) (hd : s.onceDone = true) {r : Nat}
+    (hlt : r < s.nR) (hu : s.unregCalled r = false) :
+    (s.rBad r = true → s.sdkReg r = 0) ∧ (s.rBad r = false → s.sdkReg r = 1 ∧ s.sdkUnreg r = 0) :=
+  ⟨fun hb => ((badInv_reachable hr).zero r hb).1, fun hb => callback_registered_once hr hd hlt hu hb⟩
+
+/-- F50 (before fix c3e813c `registration.setDelegate` returned on ANY error): a registration accepted with an error
+stays live in the SDK after its Unregister has been called and has returned -/
+theorem F50_dropped_registration_witness :
+    ∃ s, runLabels false { St.init with dropOnErr := true }
+        [(0, .meterNew), (0, .mk 0 10), (0, .regPartial 0),
+         (2, .instBegin), (2, .instLockProv), (2, .instLockMeter 0), (2, .instSetDel), (2, .instInst 0),
+         (2, .instRegLock), (2, .instRegBody), (2, .instMeterDone), (2, .instProvUnlock), (2, .instOnceDone),
+         (2, .instStore), (1, .unregTake 0), (1, .unregCall)] = some s ∧
+      s.unregCalled 0 = true ∧ s.tok 0 = false ∧ s.frame 1 = .idle ∧ s.sdkReg 0 = 1 ∧ s.sdkUnreg 0 = 0 := by
+  have h : ((runLabels false { St.init with dropOnErr := true }
+        [(0, .meterNew), (0, .mk 0 10), (0, .regPartial 0),
+         (2, .instBegin), (2, .instLockProv), (2, .instLockMeter 0), (2, .instSetDel), (2, .instInst 0),
+         (2, .instRegLock), (2, .instRegBody), (2, .instMeterDone), (2, .instProvUnlock), (2, .instOnceDone),
+         (2, .instStore), (1, .unregTake 0), (1, .unregCall)]).map
+      fun s => (s.unregCalled 0, s.tok 0, s.frame 1, s.sdkReg 0, s.sdkUnreg 0)) = some (true, false, .idle, 1, 0) := by
+    decide
+  match hrun : runLabels false { St.init with dropOnErr := true } _ with
+  | none => simp [hrun] at h
+  | some s =>
+    simp only [hrun, Option.map_some, Option.some.injEq, Prod.mk.injEq] at h
+    exact ⟨s, rfl, h.1, h.2.1, h.2.2.1, h.2.2.2.1, h.2.2.2.2⟩
+
+/-- non-vacuity: the same run on the code as it is — registered, one error, unregistered by the Unregister call -/
+example : ((runLabels false St.init
+        [(0, .meterNew), (0, .mk 0 10), (0, .regPartial 0),
+         (2, .instBegin), (2, .instLockProv), (2, .instLockMeter 0), (2, .instSetDel), (2, .instInst 0),
+         (2, .instRegLock), (2, .instRegBody), (2, .instMeterDone), (2, .instProvUnlock), (2, .instOnceDone),
+         (2, .instStore), (5, .cbBegin 0 0), (5, .cbEnd), (1, .unregTake 0), (1, .unregCall)]).map
+      fun s => (s.handled, s.sdkReg 0, s.sdkUnreg 0)) = some (1, 1, 1) := by decide
 
 /-! ### fresh entities (formerly an assumption of the model) -/
 
